@@ -13,6 +13,26 @@ use std::rc::Rc;
 /// before the device declares the call blocked forever.
 pub const STARVE_BUDGET: u32 = 10_000;
 
+/// A worker prints one heartbeat line per this many simulation events (+1), so that the
+/// driver's watchdog tells a long run (hundreds of thousands of frames, on a loaded machine)
+/// from a hang: a hung run - a loop in the system under test that never touches a seam, or a
+/// stuck harness - produces no events and therefore no heartbeats.
+const HEARTBEAT_MASK: u64 = (1 << 21) - 1;
+
+/// Heartbeats are printed by `rosssim worker` only (other commands own their stdout).
+pub static HEARTBEAT_ON: std::sync::atomic::AtomicBool = std::sync::atomic::AtomicBool::new(false);
+
+fn heartbeat() {
+    use std::io::Write;
+    if !HEARTBEAT_ON.load(std::sync::atomic::Ordering::Relaxed) {
+        return;
+    }
+    let stdout = std::io::stdout();
+    let mut l = stdout.lock();
+    let _ = l.write_all(b"H\n");
+    let _ = l.flush();
+}
+
 /// Panic payload used by a starved device to unwind out of a blocked SUT call.
 pub struct BlockedSentinel;
 
@@ -127,6 +147,9 @@ impl Sim {
         }
         s.hash = h;
         s.steps += 1;
+        if s.steps & HEARTBEAT_MASK == 0 {
+            heartbeat();
+        }
         if s.trace_on {
             let step = s.steps;
             let t = text();
@@ -159,6 +182,9 @@ impl Sim {
         }
         s.hash_unordered = s.hash_unordered.wrapping_add(h);
         s.steps += 1;
+        if s.steps & HEARTBEAT_MASK == 0 {
+            heartbeat();
+        }
         if s.trace_on && s.trace.len() < trace_cap() {
             let step = s.steps;
             let t = text();
